@@ -1430,7 +1430,19 @@ class ModelBuilder:
                     scenario_idx = self._get_scenario_index(obj.project, scenario_id)
                     if scenario_idx is not None and attr_data and isinstance(attr_data, tuple):
                         attr_key, attr_value = attr_data
+                        explicit = obj.__dict__.setdefault("_explicit_scenario_attrs", set())
+                        explicit.add((attr_key, scenario_idx))
                         obj[(attr_key, scenario_idx)] = attr_value
+                        # Nested scenarios inherit the value from their nearest ancestor
+                        # unless they were given a value of their own
+                        pending = list(obj.project.scenarios[scenario_id].children)
+                        while pending:
+                            sub_scenario = pending.pop()
+                            sub_idx = self._get_scenario_index(obj.project, sub_scenario.id)
+                            if sub_idx is None or (attr_key, sub_idx) in explicit:
+                                continue
+                            obj[(attr_key, sub_idx)] = attr_value
+                            pending.extend(sub_scenario.children)
                 elif key == "journalentry":
                     # Create a journal entry for this task
                     self._create_journal_entry(obj, value)  # type: ignore[arg-type]
